@@ -4,6 +4,7 @@ use super::common::*;
 use crate::core::*;
 use crate::gen::*;
 use crate::oracle::*;
+use crate::oracle::items;
 use proptest::prelude::*;
 use serde::{Deserialize, Serialize};
 use similar::{capture_diff, capture_diff_slices, DiffOp};
@@ -64,6 +65,22 @@ fn check_seq(c: &SeqCase, reps: usize, obs: &mut Obs) -> Verdict {
         Ok(o) => return Verdict::Fail(format!("{}: relabelling to zero-padded strings gives {:?}, original items give {:?}", alg_name(c.alg), o, base)),
         Err(p) => return Verdict::Fail(format!("capture_diff over String: {}", p)),
     }
+    // lawful but coarse Hash (only two bits of the value reach the hasher): collisions must not matter
+    let (oc, nc): (Vec<items::Coarse>, Vec<items::Coarse>) = (c.old.iter().map(|x| items::Coarse(*x)).collect(), c.new.iter().map(|x| items::Coarse(*x)).collect());
+    match guard(|| capture_diff(alg_of(c.alg), &oc[..], c.old_r(), &nc[..], c.new_r())) {
+        Ok(o) if o == base => {}
+        Ok(o) => return Verdict::Fail(format!("{}: items whose Hash sees only 2 bits give {:?}, u32 items give {:?}", alg_name(c.alg), o, base)),
+        Err(p) => return Verdict::Fail(format!("capture_diff over coarse-hash items: {}", p)),
+    }
+    // different element types on the two sides (new: PartialEq<old>), hashing differently
+    let oa: Vec<u64> = c.old.iter().map(|x| *x as u64).collect();
+    let na: Vec<items::Id32> = c.new.iter().map(|x| items::Id32(*x)).collect();
+    match guard(|| capture_diff(alg_of(c.alg), &oa[..], c.old_r(), &na[..], c.new_r())) {
+        Ok(o) if o == base => {}
+        Ok(o) => return Verdict::Fail(format!("{}: old items u64 / new items Id32 (PartialEq<u64>, different Hash) give {:?}, u32 items give {:?}", alg_name(c.alg), o, base)),
+        Err(p) => return Verdict::Fail(format!("capture_diff over asymmetric item types: {}", p)),
+    }
+    execs += 2;
     if c.is_full() {
         match guard(|| capture_diff_slices(alg_of(c.alg), &os, &ns)) {
             Ok(o) if o == base => {}
@@ -87,6 +104,7 @@ fn check_seq(c: &SeqCase, reps: usize, obs: &mut Obs) -> Verdict {
     obs.class_if(uniq >= 3, ">= 3 unique common items");
     obs.class_if(uniq >= 8, ">= 8 unique common items");
     obs.class_if(uniq > 100, "> 100 unique common items");
+    obs.class_if(uniq > 1000, "> 1000 unique common items");
     Verdict::Pass
 }
 
@@ -161,13 +179,15 @@ fn strat(tier: Tier) -> BoxedStrategy<Case> {
         SeqCase { alg, old: a, new: b, or, nr, mode: 0, k: None }
     });
     prop_oneof![
-        4 => uniq_heavy.prop_map(Case::Seq),
+        16 => uniq_heavy.prop_map(Case::Seq),
         // more than 100 unique items per side with crossing anchors
-        2 => (perm_pair(90, tier.pick(220, 400)), 0u8..3).prop_map(|((a, b), alg)| Case::Seq(SeqCase::full(if alg == 2 { 1 } else { alg }, a, b))),
-        2 => seq_case(tier.pick(60, 150), true, 1).prop_map(Case::Seq),
-        1 => text_case(12, false).prop_map(Case::Text),
-        1 => text_case(tier.pick(130, 200), false).prop_map(Case::Text),
-        1 => line_case(tier.pick(120, 200), false).prop_map(Case::Text),
+        // more than 1000 unique items per side (size-gated code paths)
+        1 => (perm_pair(1030, tier.pick(1400, 2600)), 0u8..2).prop_map(|((a, b), alg)| Case::Seq(SeqCase::full(alg, a, b))),
+        8 => (perm_pair(90, tier.pick(220, 400)), 0u8..3).prop_map(|((a, b), alg)| Case::Seq(SeqCase::full(if alg == 2 { 1 } else { alg }, a, b))),
+        8 => seq_case(tier.pick(60, 150), true, 1).prop_map(Case::Seq),
+        4 => text_case(12, false).prop_map(Case::Text),
+        4 => text_case(tier.pick(130, 200), false).prop_map(Case::Text),
+        4 => line_case(tier.pick(120, 200), false).prop_map(Case::Text),
     ]
     .boxed()
 }
@@ -176,7 +196,7 @@ impl Prop for C20 {
     type Case = Case;
     const ID: &'static str = "C20";
     fn rule() -> String {
-        "cases = Seq(algorithm, old, new, ranges) biased to many unique items with block moves and reversals (so hash-map iteration order could matter) | Text(old, new valid UTF-8, tokenizer in {lines, words, chars}, algorithm), sizes below and above 100 tokens. Each Seq case is executed 1 + 8 times in the same thread and in 4 freshly spawned threads (every HashMap::new() and every new thread draws fresh hasher keys), and under two order-preserving injective relabellings (u64 x -> 7919x+13, zero-padded Strings); all op lists must be identical. Text: str ops == [u8] ops, repeated runs identical. Non-trivial = >= 3 unique common items and >= 2 ops (Seq) / > 100 tokens (Text); distinct = distinct serialized case.".into()
+        "cases = Seq(algorithm, old, new, ranges) biased to many unique items with block moves and reversals (so hash-map iteration order could matter) | Text(old, new valid UTF-8, tokenizer in {lines, words, chars}, algorithm), sizes below and above 100 tokens. Each Seq case is executed 1 + 8 times in the same thread and in 4 freshly spawned threads (every HashMap::new() and every new thread draws fresh hasher keys), and under two order-preserving injective relabellings (u64 x -> 7919x+13, zero-padded Strings), with items whose lawful Hash only sees two bits of the value, and with different element types on the two sides (old u64, new Id32: PartialEq<u64> with an unrelated Hash); all op lists must be identical. Families include permutations of 90-400 and of 1030-1400/2600 distinct items. Text: str ops == [u8] ops, repeated runs identical. Non-trivial = >= 3 unique common items and >= 2 ops (Seq) / > 100 tokens (Text); distinct = distinct serialized case.".into()
     }
     fn assumptions() -> Vec<String> {
         vec![
